@@ -20,7 +20,7 @@ def block_case(rng, mode, n_ops, with_state=True, oneshot=False, padded=False, d
             c.ops.append(f"blockb {hx(rb(rng, mbs))} {hx(rb_nz(rng, mbs))}")
         elif r < 0.7:
             k = nblocks_choice(rng, w, maxb)
-            c.ops.append(f"blocks {hx(rb(rng, k * mbs))}")
+            c.ops.append(blocks_op(rng, rb(rng, k * mbs)))
         elif r < 0.85:
             k = nblocks_choice(rng, w, maxb)
             c.ops.append(f"blocksb {hx(rb(rng, k * mbs))} {hx(rb_nz(rng, k * mbs))}")
@@ -124,9 +124,9 @@ def core_case(rng, mode, n_ops=None):
         if r < 0.2:
             c.ops.append("ksblock")
         elif r < 0.45:
-            c.ops.append(f"ksblocks {nblocks_choice(rng, w, 3 * w + 2)}")
+            c.ops.append(ks_op(rng, nblocks_choice(rng, w, 3 * w + 2)))
         elif r < 0.7:
-            c.ops.append(f"applyblocks {hx(rb(rng, nblocks_choice(rng, w, 3 * w + 2) * bs))}")
+            c.ops.append(coreapply_op(rng, rb(rng, nblocks_choice(rng, w, 3 * w + 2) * bs), bs))
         elif r < 0.8:
             k = nblocks_choice(rng, w, 2 * w + 2) * bs
             c.ops.append(f"applyblocksb {hx(rb(rng, k))} {hx(rb_nz(rng, k))}")
